@@ -40,7 +40,7 @@ theorem splitNode_LK (path : Key) (child : Node) (common restS : Key) (y : Nat) 
     · intro l hl; cases hl; simpa using hs.symm
     · exact Edges.LK_add _ y _ (by simpa [Node.pre] using hold) .nil trivial
   | cons x xs =>
-    refine ⟨fun l hl => by cases hl, ?_⟩
+    refine ⟨fun l hl => (by cases hl), ?_⟩
     apply Edges.LK_add _ x _ ?_ _ (Edges.LK_add _ y _ (by simpa [Node.pre] using hold) .nil trivial)
     apply leafNode_LK
     simp [Node.pre, ← hs, List.append_assoc]
